@@ -6,7 +6,17 @@ import (
 	"sigs.k8s.io/controller-runtime/pkg/client"
 
 	"verif/internal/ev"
+	"verif/internal/explore"
 )
+
+// noteDiverged records prefixes whose subtree could not be explored because replaying them met nondeterminism the
+// harness does not own (Go map iteration order deciding the shape of a pass; DESIGN 2.6): an outcome, never a verdict.
+func noteDiverged(l *ev.Local, ex *explore.Explorer, label string) {
+	l.Mute = false
+	for i := 0; i < ex.Diverged; i++ {
+		l.Outcome(label + "-not-replayable (map-order nondeterminism)")
+	}
+}
 
 type Check struct {
 	ID    string
